@@ -200,7 +200,13 @@ class Engine(EngineBase):
             opts["dry_run"] = False
             opts["selection"] = None
         if src_jobs and rng.random() < 0.35:
-            opts["selection"] = sorted(rng.sample(sorted(src_jobs), rng.randrange(0, len(src_jobs) + 1)))
+            # the selection is a set of ids: it may name jobs of the destination (selection=dst) or jobs
+            # that exist in neither project's source side
+            pool = sorted(set(src_jobs) | set(dst_jobs)) if rng.random() < 0.4 else sorted(src_jobs)
+            opts["selection"] = sorted(rng.sample(pool, rng.randrange(0, len(pool) + 1)))
+            if rng.random() < 0.3 and pool:
+                # ... with exactly as many ids as the source has jobs
+                opts["selection"] = sorted(rng.sample(pool, min(len(pool), len(src_jobs))))
         precrash = None
         if P in ("C13", "C14") and not opts["dry_run"] and not opts["parallel"] and rng.random() < 0.2:
             # debris of an earlier, crashed run of the same sync: [position in its trace, prefer the
@@ -230,7 +236,8 @@ class Engine(EngineBase):
                 c = copy.deepcopy(scenario)
                 del c[side]["jobs"][k]
                 if c["opts"]["selection"]:
-                    c["opts"]["selection"] = [x for x in c["opts"]["selection"] if x in c["src"]["jobs"]]
+                    c["opts"]["selection"] = [x for x in c["opts"]["selection"]
+                                              if x in c["src"]["jobs"] or x in c["dst"]["jobs"]]
                 yield c
         for side in ("src", "dst"):
             for k in sorted(scenario[side]["jobs"]):
@@ -409,8 +416,9 @@ class Run:
             if entry in ("Project.sync", "sync_projects"):
                 sel = None
                 if o["selection"] is not None:
-                    ids = [cid(sc["src"]["jobs"][k]["sp"]) for k in o["selection"]]
-                    sel = ids if o["selection_kind"] == "id" else [src.open_job(id=i) for i in ids]
+                    ids = [self.sel_id(k) for k in o["selection"]]
+                    sel = ids if o["selection_kind"] == "id" else [
+                        (src if k in sc["src"]["jobs"] else dst).open_job(id=i) for k, i in zip(o["selection"], ids)]
                 kw.update(check_schema=o["check_schema"], parallel=o["parallel"])
                 if o.get("collect_stats"):
                     kw.update(collect_stats=True)
@@ -430,6 +438,10 @@ class Run:
         except Exception as e:  # noqa: BLE001 - the outcome is compared with the reference
             return e
 
+    def sel_id(self, k):
+        sc = self.sc
+        return cid((sc["src"]["jobs"].get(k) or sc["dst"]["jobs"][k])["sp"])
+
     @quiet
     def clone_pair(self, tag):
         s2, d2 = self.world.p("src" + tag), self.world.p("dst" + tag)
@@ -447,7 +459,7 @@ class Run:
         conflicts = []
         if sc["entry"] in ("Project.sync", "sync_projects"):
             if o["selection"] is not None:
-                o["selection"] = {cid(sc["src"]["jobs"][k]["sp"]) for k in o["selection"]}
+                o["selection"] = {self.sel_id(k) for k in o["selection"]}
             exp = sync_ref.sync_project(ms, md, o, conflicts)
         else:
             sp = (sc["src"]["jobs"].get(sc["pair"]) or sc["dst"]["jobs"][sc["pair"]])["sp"]
@@ -716,7 +728,7 @@ class Run:
         patterns = ([o["exclude"]] if isinstance(o["exclude"], str) else list(o["exclude"])) if o["exclude"] else []
         sel = None
         if o["selection"] is not None and sc["entry"] in ("Project.sync", "sync_projects"):
-            sel = {cid(sc["src"]["jobs"][k]["sp"]) for k in o["selection"]}
+            sel = {self.sel_id(k) for k in o["selection"]}
         self.compare_doc("project", ms["doc"], md["doc"], ma["doc"], exp["doc"])
         for jid in sorted(set(exp["jobs"]) | set(ma["jobs"])):
             je, ja = exp["jobs"].get(jid), ma["jobs"].get(jid)
